@@ -59,6 +59,12 @@ def correspondence(ctx, model_ok):
         r.count('cycle_check', case['cyc'][0] if case['cyc'][0] == 'ok' else case['cyc'][1])
         for x in case['tcs']:
             r.count('traversals', f"{x['mode']}/{'inverse' if x['inverse'] else 'forward'}")
+    if not ctx.quick:
+        for d in gen.tiny_netlists():
+            case = travcorr.make_case(ctx.rng, d, n_trav=8)
+            cases.append(case)
+            r.add_case({'circuit': d}, any(t != 'INPUT' for _, t, _ in d['gates']))
+        r.notes.append('thorough tier enumerated all 908 netlists with <= 2 inputs and <= 2 gates over ' + str(gen.TINY_TYPES))
     r._cases = cases
     if model_ok:
         bad = coqrun.run_cases(ID, 'trav', travcorr.HEADER, [travcorr.case_term(c) for c in cases],
